@@ -12,6 +12,7 @@ Locals that do not align (new code) keep their spelling (suffixed if it would co
 globals/nonlocals, attribute names and keyword names are never touched.  Line numbers are unchanged.
 """
 import ast
+import copy
 import builtins
 import difflib
 import json
@@ -900,6 +901,60 @@ def _count_loops(fn):
     fn.body = rewrite(fn.body)
 
 
+def _sentinel_loops(fn):
+    """N45: for X in iter(F, S): BODY  ->  while True: X = F(); if X == S: break; BODY      with F a parameterless lambda written in
+    place or bound once to a local (the binding goes when that was its only use)"""
+    lambdas = {}
+    for n in ast.walk(fn):
+        if isinstance(n, ast.Assign) and len(n.targets) == 1 and isinstance(n.targets[0], ast.Name) and isinstance(n.value, ast.Lambda) and \
+                not (n.value.args.args or n.value.args.vararg or n.value.args.kwarg or n.value.args.kwonlyargs):
+            lambdas.setdefault(n.targets[0].id, []).append(n)
+    stores = {}
+    loads = {}
+    for n in ast.walk(fn):
+        if isinstance(n, ast.Name):
+            d = stores if isinstance(n.ctx, ast.Store) else loads
+            d[n.id] = d.get(n.id, 0) + 1
+    drop = set()
+
+    def rewrite(stmts):
+        out = []
+        for st in stmts:
+            for fld in ('body', 'orelse', 'finalbody'):
+                b = getattr(st, fld, None)
+                if isinstance(b, list) and b and isinstance(b[0], ast.stmt) and not isinstance(st, (ast.FunctionDef, ast.ClassDef)):
+                    setattr(st, fld, rewrite(b))
+            for h in getattr(st, 'handlers', []) or []:
+                h.body = rewrite(h.body)
+            it = st.iter if isinstance(st, ast.For) else None
+            if it is not None and isinstance(it, ast.Call) and isinstance(it.func, ast.Name) and it.func.id == 'iter' and len(it.args) == 2 and not it.keywords and \
+                    not st.orelse and isinstance(st.target, ast.Name) and isinstance(it.args[1], (ast.Constant, ast.Name)):
+                f = it.args[0]
+                body = None
+                if isinstance(f, ast.Lambda) and not (f.args.args or f.args.vararg or f.args.kwarg or f.args.kwonlyargs):
+                    body = f.body
+                elif isinstance(f, ast.Name) and len(lambdas.get(f.id, ())) == 1 and stores.get(f.id) == 1:
+                    body = copy.deepcopy(lambdas[f.id][0].value.body)
+                    if loads.get(f.id) == 1:
+                        drop.add(id(lambdas[f.id][0]))
+                if body is not None:
+                    x = st.target.id
+                    read = ast.Assign(targets=[ast.Name(id=x, ctx=ast.Store())], value=body)
+                    brk = ast.If(test=ast.Compare(left=ast.Name(id=x, ctx=ast.Load()), ops=[ast.Eq()], comparators=[it.args[1]]), body=[ast.Break()], orelse=[])
+                    loop = ast.While(test=ast.Constant(value=True), body=[read, brk] + st.body, orelse=[])
+                    out.append(ast.fix_missing_locations(ast.copy_location(loop, st)))
+                    continue
+            out.append(st)
+        return out
+    fn.body = rewrite(fn.body)
+    if drop:
+        for n in ast.walk(fn):
+            for fld in ('body', 'orelse', 'finalbody'):
+                b = getattr(n, fld, None)
+                if isinstance(b, list) and any(id(x) in drop for x in b):
+                    setattr(n, fld, [x for x in b if id(x) not in drop] or [ast.Pass()])
+
+
 def _coalesce_copies(fn):
     """N43: Y = X (two plain locals, outside any loop), Y unseen before, X never used after  ->  Y is X: the copy goes and Y is
     spelled X from there on (`first = buckets[h]; if first < lo: return; idx = first; while ...: idx += 1`)"""
@@ -962,6 +1017,7 @@ def _normalise_once(tree, keep_count=()):
     for qual, fn in outer_functions(tree):
         if qual not in keep_count:       # towards the reference spelling: a function that is written with count() there keeps it
             _count_loops(fn)
+        _sentinel_loops(fn)
         for _ in range(4):
             if not _coalesce_copies(fn):
                 break
